@@ -35,15 +35,26 @@ own("C09 C10", "SHashToScalar")
 own("C18", "SRandom")
 own("C15", "MemCall MemProbe")
 own("C16", "RaceReport Adopt")
+own("C12", "FNew FOne FSet FAdd FSub FMul FSqr FNeg FInvert FSqrtRatio FCMove FFromBytes FWide FBytes FSgn0 FIsZero FEquals FSetInt FReset")
+own("C11", "MSswu MIso")
+own("C09", "NWide")
 # in the concurrency check every disagreement is a call that did not return its sequential result
 CONCURRENT_PROPS = {"C16"}
 
 # trace-validated properties: harness generator name == property id
-TRACE_PROPS = {"C01", "C02", "C03", "C04", "C05", "C06", "C07", "C08", "C09", "C10", "C13", "C14", "C15", "C16", "C18"}
-# which trace specification validates the property's traces
-TRACE_SPEC = {"C15": ("TraceMem.tla", "TraceMem.cfg")}
+TRACE_PROPS = {"C01", "C02", "C03", "C04", "C05", "C06", "C07", "C08", "C09", "C10", "C11", "C12", "C13", "C14", "C15", "C16", "C18"}
+# A check is a list of passes: (generator name, harness file groups, trace module, cfg, scale, optional?, only these reasons count)
+SECP = ("TraceSecp.tla", "TraceSecp.cfg")
+FIELD = ("TraceField.tla", "TraceField.cfg")
+PASSES = {
+    "C09": [("C09", ("main",), SECP, 1.0, False, None), ("C09w", ("main", "field"), FIELD, 1.0, True, None)],
+    "C11": [("C11", ("main", "field"), FIELD, 1.0, False, None)],
+    "C12": [("C12", ("main", "field"), FIELD, 1.0, False, None)],
+    "C15": [("C15", ("main",), ("TraceMem.tla", "TraceMem.cfg"), 1.0, False, None),
+            ("C10", ("main",), SECP, 0.15, False, {"frame", "invalid-frame"})],   # element / scalar arguments keep their value
+}
 # properties whose histories can be re-executed call by call from a replay file
-SCENARIO_PROPS = TRACE_PROPS - {"C15", "C16"}
+SCENARIO_PROPS = TRACE_PROPS - {"C15", "C16", "C11", "C12"}
 
 # toy-scale model-checking configurations per property: (module, cfg, quick?, extra args)
 MC = {}
@@ -58,23 +69,24 @@ class Inconclusive(Exception):
 
 
 # ------------------------------------------------------------------ building the harness
-def harness_overlay(work, accessor):
+def harness_overlay(work, accessor, groups=("main",)):
     rep = {}
     acc = "zz_verif_access.go" if accessor else "zz_verif_stub.go"
     rep[os.path.join(REPO, "zz_verif_access.go")] = os.path.join(VERIF, "harness", "access", acc)
-    for f in sorted(glob.glob(os.path.join(VERIF, "harness", "main", "*.go"))):
-        rep[os.path.join(REPO, "internal", "verifharness", os.path.basename(f))] = f
-    p = os.path.join(work, "overlay_%s.json" % ("acc" if accessor else "stub"))
+    for g in groups:
+        for f in sorted(glob.glob(os.path.join(VERIF, "harness", g, "*.go"))):
+            rep[os.path.join(REPO, "internal", "verifharness", os.path.basename(f))] = f
+    p = os.path.join(work, "overlay_%s_%s.json" % ("acc" if accessor else "stub", "_".join(groups)))
     json.dump({"Replace": rep}, open(p, "w"))
     return p
 
 
-def build_harness(work, race=False):
+def build_harness(work, race=False, groups=("main",)):
     """Compile the harness inside /repo's module from the current working tree.  Returns (binary, accessor?)."""
     last = ""
     for accessor in (True, False):
-        ov = harness_overlay(work, accessor)
-        out = os.path.join(work, "harness_bin" + ("_race" if race else ""))
+        ov = harness_overlay(work, accessor, groups)
+        out = os.path.join(work, "harness_bin_" + "_".join(groups) + ("_race" if race else ""))
         cmd = ["go", "build", "-tags", "verif", "-overlay", ov, "-o", out]
         if race:
             cmd.append("-race")
@@ -214,9 +226,7 @@ ASSUME = [
 
 
 # ------------------------------------------------------------------ trace-validated properties
-def check_trace_property(prop, tier, seed, work, replay=None, scale=1.0):
-    t0 = time.time()
-    specdir = copy_spec(work)
+def run_mc_stage(prop, tier, specdir, work):
     mc_results = []
     for (module, cfg, tiers, extra) in MC.get(prop, []):
         if tier in tiers:
@@ -224,70 +234,101 @@ def check_trace_property(prop, tier, seed, work, replay=None, scale=1.0):
             mc_results.append(r)
             log("  MC %-22s %-6s generated=%d distinct=%d %.0fs" % (cfg, "ok" if r["ok"] else "FAIL", r["generated"], r["distinct"], r["wall"]))
             if not r["ok"]:
-                open(os.path.join(work, "mc_fail.out"), "w").write(r["out"])
                 keep = os.path.join(VERIF, "replays", "%s_mc_%s.out" % (prop, cfg))
                 os.makedirs(os.path.dirname(keep), exist_ok=True)
-                shutil.copy(os.path.join(work, "mc_fail.out"), keep)
-                raise Inconclusive("toy-scale model checking of %s failed or timed out (a fault of the specification, not of the code): %s" % (cfg, keep))
+                open(keep, "w").write(r["out"])
+                raise Inconclusive("toy-scale model checking of %s failed or timed out (a fault of the specification or of its bounds, not of the code): %s" % (cfg, keep))
+    return mc_results
 
-    tdir = os.path.join(work, "traces")
-    os.makedirs(tdir)
+
+def record_pass(prop, gname, groups, tier, seed, scale, work, tdir):
+    """Build the harness for these file groups, run generator gname, return its summary."""
+    race = prop in CONCURRENT_PROPS
+    binary, accessor = build_harness(work, race=race, groups=groups)
+    cmd = [binary, "-prop", gname, "-out", tdir, "-seed", str(seed), "-tier", tier,
+           "-shards", str(NCPU * (4 if tier == "thorough" else 1)), "-scale", str(scale)]
+    env = dict(GOENV)
+    if race:
+        env["GORACE"] = "halt_on_error=0 log_path=%s" % os.path.join(work, "race")
+    r = subprocess.run(cmd, capture_output=True, text=True, env=env, timeout=3600)
+    if r.returncode not in (0, 66) or not r.stdout.strip():
+        raise Inconclusive("harness failed (rc=%d): %s" % (r.returncode, (r.stderr or r.stdout)[-3000:]))
+    summary = json.loads(r.stdout.strip().splitlines()[-1])
+    if race:
+        reports = []
+        for rf in sorted(glob.glob(os.path.join(work, "race.*"))):
+            txt = open(rf, errors="replace").read()
+            reports += [b for b in txt.split("==================") if "DATA RACE" in b]
+        summary["race_reports"] = len(reports)
+        if reports and summary["files"]:
+            # a race report becomes an event of the first trace: the specification has no such action
+            f0 = summary["files"][0]
+            last = json.loads(read_lines(f0)[-1])
+            keep = os.path.join(VERIF, "replays", "%s_%s_%d_race.txt" % (prop, tier, seed))
+            os.makedirs(os.path.dirname(keep), exist_ok=True)
+            open(keep, "w").write("\n==================\n".join(reports[:20]))
+            ev = {"op": "RaceReport", "count": len(reports), "where": [l.strip() for l in reports[0].splitlines() if ".go:" in l][:6],
+                  "report_file": keep, "obs": last["obs"]}
+            open(f0, "a").write(json.dumps(ev) + "\n")
+            summary["events"] += 1
+    return summary
+
+
+def check_trace_property(prop, tier, seed, work, replay=None, scale=1.0):
+    t0 = time.time()
+    specdir = copy_spec(work)
+    mc_results = run_mc_stage(prop, tier, specdir, work)
+    passes = PASSES.get(prop, [(prop, ("main",), SECP, 1.0, False, None)])
+    jobs = []          # (trace file, module, cfg, reasons filter)
+    summaries = []
+    notes = []
     if replay:
         rp = json.load(open(replay))
-        if rp.get("scenario") and prop in SCENARIO_PROPS:
-            binary, accessor = build_harness(work)
+        gname = rp.get("generator", prop)
+        ps = [p for p in passes if p[0] == gname] or passes[:1]
+        _, groups, (tmod, tcfg), _, _, reasons = ps[0]
+        tdir = os.path.join(work, "traces_replay")
+        os.makedirs(tdir)
+        if rp.get("scenario") and prop in SCENARIO_PROPS and tmod == "TraceSecp.tla":
+            # re-execute the recorded calls against the current tree, then validate the NEW recording
+            binary, accessor = build_harness(work, groups=groups)
             sc = os.path.join(work, "scenario.ndjson")
             open(sc, "w").write("\n".join(rp["history"]) + "\n")
-            r = subprocess.run([binary, "-prop", prop, "-out", tdir, "-scenario", sc], capture_output=True, text=True, env=GOENV)
-            if r.returncode != 0:
-                raise Inconclusive("harness failed on replay: " + r.stderr[-2000:])
+            r = subprocess.run([binary, "-prop", gname, "-out", tdir, "-scenario", sc], capture_output=True, text=True, env=GOENV)
+            if r.returncode != 0 or not r.stdout.strip():
+                raise Inconclusive("harness failed on replay: " + (r.stderr or r.stdout)[-2000:])
             summary = json.loads(r.stdout.strip().splitlines()[-1])
         else:
-            f = os.path.join(tdir, "trace_001.ndjson")
-            open(f, "w").write("\n".join(rp["history"]) + "\n")
-            summary = {"events": len(rp["history"]) - 1, "histories": 1, "accessor": True, "files": [f], "classes": {}}
+            # histories that cannot be re-executed call by call are regenerated from their seed
+            summary = record_pass(prop, gname, groups, rp.get("tier", tier), rp.get("seed", seed), rp.get("scale", scale), work, tdir)
+        summaries.append(summary)
+        jobs += [(f, tmod, tcfg, reasons, gname) for f in summary["files"]]
     else:
-        race = prop in CONCURRENT_PROPS
-        binary, accessor = build_harness(work, race=race)
-        cmd = [binary, "-prop", prop, "-out", tdir, "-seed", str(seed), "-tier", tier, "-shards", str(NCPU * (4 if tier == "thorough" else 1)), "-scale", str(scale)]
-        env = dict(GOENV)
-        if race:
-            env["GORACE"] = "halt_on_error=0 log_path=%s" % os.path.join(work, "race")
-        r = subprocess.run(cmd, capture_output=True, text=True, env=env, timeout=3600)
-        if r.returncode not in (0, 66) or not r.stdout.strip():
-            raise Inconclusive("harness failed (rc=%d): %s" % (r.returncode, (r.stderr or r.stdout)[-3000:]))
-        summary = json.loads(r.stdout.strip().splitlines()[-1])
-        if race:
-            reports = []
-            for rf in sorted(glob.glob(os.path.join(work, "race.*"))):
-                txt = open(rf, errors="replace").read()
-                reports += [b for b in txt.split("==================") if "DATA RACE" in b]
-            summary["race_reports"] = len(reports)
-            if reports and summary["files"]:
-                # a race report becomes an event of the first trace: the specification has no such action
-                f0 = summary["files"][0]
-                ls = read_lines(f0)
-                last = json.loads(ls[-1])
-                keep = os.path.join(VERIF, "replays", "%s_%s_%d_race.txt" % (prop, tier, seed))
-                os.makedirs(os.path.dirname(keep), exist_ok=True)
-                open(keep, "w").write("\n==================\n".join(reports[:20]))
-                ev = {"op": "RaceReport", "count": len(reports), "where": [l.strip() for l in reports[0].splitlines() if ".go:" in l][:6], "report_file": keep, "obs": last["obs"]}
-                open(f0, "a").write(json.dumps(ev) + "\n")
-                summary["events"] += 1
-    files = summary["files"]
-    log("  harness: %d events in %d histories, %d trace files, accessor=%s (%.1fs)" % (summary["events"], summary["histories"], len(files), summary["accessor"], time.time() - t0))
+        for k, (gname, groups, (tmod, tcfg), pscale, optional, reasons) in enumerate(passes):
+            tdir = os.path.join(work, "traces_%d" % k)
+            os.makedirs(tdir)
+            try:
+                summary = record_pass(prop, gname, groups, tier, seed, scale * pscale, work, tdir)
+            except Inconclusive as e:
+                if optional:
+                    notes.append("optional pass %s skipped: %s" % (gname, str(e)[:300]))
+                    log("  note: optional pass %s skipped (harness group %s does not build or run against this tree)" % (gname, "+".join(groups)))
+                    continue
+                raise
+            summaries.append(summary)
+            jobs += [(f, tmod, tcfg, reasons, gname) for f in summary["files"]]
+            log("  harness[%s]: %d events in %d histories, %d trace files, accessor=%s (%.1fs)"
+                % (gname, summary["events"], summary["histories"], len(summary["files"]), summary["accessor"], time.time() - t0))
 
     timeout = 3000 if tier == "thorough" else 900
-    results = []
     with concurrent.futures.ThreadPoolExecutor(max_workers=NCPU) as ex:
-        tmod, tcfg = TRACE_SPEC.get(prop, ("TraceSecp.tla", "TraceSecp.cfg"))
-        for res in ex.map(lambda f: validate_one(specdir, f, work, timeout, tmod, tcfg), files):
-            results.append(res)
+        results = list(ex.map(lambda j: validate_one(specdir, j[0], work, timeout, j[1], j[2]), jobs))
 
     findings = load_findings()
     violations, known, inconclusive, machinery = [], [], [], []
     total_states = total_lines = 0
-    for res in results:
+    for job, res in zip(jobs, results):
+        reasons, gname = job[3], job[4]
         lines = read_lines(res["trace"])
         total_states += res["states"]
         if res["end"] is None or res["end"][0] != len(lines):
@@ -301,10 +342,13 @@ def check_trace_property(prop, tier, seed, work, replay=None, scale=1.0):
             event = json.loads(lines[rec["line"] - 1])
             rec["event"] = strip_obs(event)
             rec["history"] = history_of(lines, rec["line"])
+            rec["generator"] = gname
             kf = [f for f in findings if matches_finding(f, prop, rec, event)]
             if kf:
                 known.append((kf[0], rec))
-            elif prop in OWNERS.get(rec["op"], set()):
+            elif reasons is not None:
+                (violations if rec["reason"] in reasons else inconclusive).append(rec)
+            elif prop in OWNERS.get(rec["op"], set()) or prop in CONCURRENT_PROPS:
                 violations.append(rec)
             else:
                 inconclusive.append(rec)
@@ -319,8 +363,9 @@ def check_trace_property(prop, tier, seed, work, replay=None, scale=1.0):
             out_lines.append("KNOWN-FINDING: property=%s %s" % (prop, kf.get("what", "")))
     for i, rec in enumerate(violations[:20]):
         path = os.path.join(VERIF, "replays", "%s_%s_%d_%d.json" % (prop, tier, seed, i))
-        json.dump({"property": prop, "op": rec["op"], "reason": rec["reason"], "detail": rec["detail"], "line": rec["line"],
-                   "event": rec["event"], "scenario": True, "history": rec["history"]}, open(path, "w"))
+        json.dump({"property": prop, "generator": rec["generator"], "op": rec["op"], "reason": rec["reason"], "detail": rec["detail"],
+                   "line": rec["line"], "event": rec["event"], "scenario": True, "tier": tier, "seed": seed, "scale": scale,
+                   "history": rec["history"]}, open(path, "w"))
         out_lines.append("VIOLATION property=%s replay=%s" % (prop, path))
         log("  disagreement: op=%s reason=%s detail=%s event=%s" % (rec["op"], rec["reason"], rec["detail"], json.dumps(rec["event"])[:600]))
     for rec in inconclusive[:10]:
@@ -331,29 +376,35 @@ def check_trace_property(prop, tier, seed, work, replay=None, scale=1.0):
 
     # samples: a few real events, without the bulky observation
     samples = []
-    if files:
-        ls = read_lines(files[0])
-        for ln in ls[2:8]:
+    for job in jobs[:2]:
+        for ln in read_lines(job[0])[2:6]:
             try:
                 samples.append(strip_obs(json.loads(ln)))
             except Exception:
                 pass
+    classes = {}
+    for sm in summaries:
+        for k, v in sm.get("classes", {}).items():
+            classes[k] = classes.get(k, 0) + v
     mc_states = sum(r["distinct"] for r in mc_results)
     mc_trans = sum(r["generated"] for r in mc_results)
     coverage = {
         "states": mc_states + total_states,
         "transitions": mc_trans + total_lines,
-        "traces_validated_against_impl": summary["histories"] if not machinery else 0,
+        "traces_validated_against_impl": sum(sm["histories"] for sm in summaries) if not machinery else 0,
         "events_validated": total_lines,
-        "samples": samples or [{"note": "no events"}],
+        "samples": [json.loads(json.dumps(x)[:1500] if len(json.dumps(x)) <= 1500 else json.dumps({"op": x.get("op"), "note": "large event elided"})) for x in samples] or [{"note": "no events"}],
         "toy_model_checking": [{k: r[k] for k in ("module", "cfg", "ok", "generated", "distinct", "wall")} for r in mc_results],
-        "trace_files": len(files),
-        "accessor": summary.get("accessor"),
-        "class_histogram": summary.get("classes", {}),
+        "trace_files": len(jobs),
+        "passes": [p[0] for p in passes],
+        "accessor": all(sm.get("accessor") for sm in summaries) if summaries else None,
+        "class_histogram": classes,
+        "race_reports": sum(sm.get("race_reports", 0) for sm in summaries),
         "disagreements": len(violations), "known_findings_seen": len(known),
         "inconclusive_foreign_disagreements": len(inconclusive), "machinery_faults": len(machinery),
+        "notes": notes,
         "exhaustive": False,
-        "checker_cmd": "java -Xss1g -cp tla2tools.jar:CommunityModules-deps.jar tlc2.TLC -workers 1 -config TraceSecp.cfg TraceSecp.tla (VERIF_TRACE=<shard>)",
+        "checker_cmd": "java -Xss1g -cp tla2tools.jar:CommunityModules-deps.jar tlc2.TLC -workers 1 -config Trace*.cfg Trace*.tla (VERIF_TRACE=<shard>)",
     }
     write_evidence(prop, tier, seed, coverage, time.time() - t0, len(violations), ASSUME)
     for l in out_lines:
